@@ -211,7 +211,7 @@ func TestC17(t *testing.T) {
 	nat.BeforeCall = func(contract common.Address, method string) { m.cur = fmt.Sprintf("%x.%s", contract[18:], method) }
 	defer func() { utils.VerifConcatKeyHook = nil; nat.Observer = nil; nat.ExecHook = nil; nat.BeforeCall = nil }()
 
-	rounds := r.N(1, 5)
+	rounds := r.N(2, 40)
 	runWorkloads(r, "p1", func() *workloads.Palette { return nil }, rounds)
 	ev1 := m.events
 
@@ -251,7 +251,7 @@ func TestC17(t *testing.T) {
 	r.Set("kind_prefix_pairs", pairs)
 	r.Count("kind_prefix_pairs", len(pairs))
 	if len(chainIDs) > 0 {
-		hr := r.N(2, 8)
+		hr := r.N(3, 40)
 		off := 0
 		runWorkloads(r, "p2", func() *workloads.Palette {
 			// rotate so that every workload starts at a different hostile value
